@@ -37,6 +37,15 @@ type mObj struct {
 	deadline time.Duration // virtual time
 }
 
+// emptyGeo reports whether a GeoJSON object holds no position at all.
+func (o *mObj) emptyGeo() bool {
+	if o.kind != "object" {
+		return false
+	}
+	var v map[string]interface{}
+	return json.Unmarshal([]byte(o.json), &v) == nil && emptyGeoJSON(v)
+}
+
 func (o *mObj) clone() *mObj {
 	c := *o
 	c.fields = make(map[string]string, len(o.fields))
@@ -806,8 +815,8 @@ func (m *Model) apply(args []string, now time.Duration) mResult {
 		var want []string
 		col := m.cols[a[0]]
 		for _, id := range sortedIDs(col) {
-			if col[id].spatial {
-				want = append(want, id)
+			if col[id].spatial && !col[id].emptyGeo() {
+				want = append(want, id) // (an empty geometry has no extent: no area contains it)
 			}
 		}
 		if len(want) >= 100 {
